@@ -514,6 +514,15 @@ def lexical_grammar(prop, tier, seed):
         obs.append(ob('C15:%s:token-at-every-position-is-the-published-one[bounded: all texts up to length 4 over a 15-character probe alphabet]' % name,
                       ['C15', 'C06', 'C18', 'C20'], diff is None, {'regex': real, 'published': pub, 'first_difference': diff,
                                                                    'strings_compared': len(strings), 'bounded': True}))
+    # the set of token rules is the published one: a new rule changes what the parser sees, a lost one loses a token
+    from contracts.published import PUBLISHED_SIMPLE_TOKENS, PUBLISHED_FUNCTION_TOKENS
+    want = set(PUBLISHED_SIMPLE_TOKENS) | set(PUBLISHED_FUNCTION_TOKENS)
+    obs.append(ob('C15:lexer:token-rules-are-exactly-the-published-ones', ['C15', 'C06', 'C20', 'C18'], set(regs) == want,
+                  {'added': sorted(set(regs) - want), 'lost': sorted(want - set(regs))}))
+    for name, pub in sorted(PUBLISHED_SIMPLE_TOKENS.items()):
+        if name in regs:
+            obs.append(ob('C15:%s:token-regex-is-the-published-one' % name, ['C15', 'C06'], regs[name].strip() == pub.strip(),
+                          {'regex': regs[name], 'published': pub}))
     # exception classes: the driver and Python's own machinery treat some classes specially
     exc = src.exception_classes()
     chain = []
